@@ -356,6 +356,32 @@ def gen_c20_case(seed, idx):
                 desc=dict(shape='fallback'))
 
 
+STRICT_PRELUDE = PRELUDE.replace('#![allow(dead_code, unused_imports, non_camel_case_types, non_snake_case, non_upper_case_globals)]',
+                                '#![allow(dead_code, unused_imports)]')
+
+
+def gen_lint_case(seed, idx, plain=False):
+    """conventionally named items (snake_case fields, some with a leading underscore or a digit; CamelCase types) under
+    `#![deny(warnings)]` with only `dead_code` / `unused_imports` allowed: the style lints stay on, so a made-up name that
+    rustc takes for the user's (F35: `__self__marker`, `__hash__alpha`) is an error, as it is in a crate that denies
+    warnings — where the standard derives compile"""
+    rng = random.Random(seed * 3000017 + idx)
+    for _ in range(80):
+        names = Names(ty=rng.choice(['Xyz', 'Point2', 'HttpReq']), T='T', U='U', N='N', lt="'a",
+                      fields=rng.sample(['alpha', '_beta', 'gamma_1', 'delta', '_0x', 'r#type', '__', '_marker'], 4),
+                      variants=rng.sample(['One', 'Two', 'Three', 'Four', 'V2', 'r#Self_'], 4))
+        it = gen_item(rng, names=names, plain=plain)
+        if it['params_all_used']:
+            return dict(it, id=f'lint/{seed}/{idx}', item=it['src'], src=STRICT_PRELUDE + it['src'] + '\n')
+    return dict(id=f'lint/{seed}/{idx}', item='', src=STRICT_PRELUDE + '#[derive_ex(Clone)] pub struct X(i8);\n', traits=['Clone'],
+                desc=dict(shape='fallback'))
+
+
+def gen_lint_plain_case(seed, idx):
+    """the same without helper attributes (C12: a drop-in for the standard derives, also in a crate that denies warnings)"""
+    return gen_lint_case(seed, idx, plain=True)
+
+
 def gen_seq_case(seed, idx):
     """Two or three items expanded one after the other in the same compiler process (one crate), with names that play
     different roles from item to item: the first item is generic over `V` and writes `T` for a *concrete* type (an alias
